@@ -20,6 +20,18 @@ def main():
                     choices=['quick', 'thorough'])
     ap.add_argument('--replay')
     args = ap.parse_args()
+    # temporary files the library itself creates (agent forwarding sockets, ...) go to a scratch directory of this
+    # run instead of /tmp, and are removed with it: executions are abandoned in mid-flight by design, and worker
+    # processes do not run finalizers
+    import atexit
+    import shutil
+    import tempfile
+    tmp = '/dev/shm/asyncssh-verif-tmp.%d' % os.getpid()
+    os.makedirs(tmp, exist_ok=True)
+    os.environ['TMPDIR'] = tmp
+    tempfile.tempdir = tmp
+    owner = os.getpid()
+    atexit.register(lambda: os.getpid() == owner and shutil.rmtree(tmp, ignore_errors=True))
     import asyncssh
     repo = os.path.realpath(os.environ.get('VERIF_REPO', '/repo'))
     assert os.path.realpath(asyncssh.__file__).startswith(repo), asyncssh.__file__
